@@ -3,3 +3,12 @@
 //! Nothing here changes behaviour; with the feature off this module does not exist.
 
 pub use super::debugee::dwarf::VerifPathSearchIndex as PathSearchIndex;
+
+pub use super::debugee::dwarf::DebugInformation;
+
+impl super::Debugger {
+    /// debug information of the main executable (the tables the address/source look-ups read)
+    pub fn verif_program_debug_info(&self) -> Result<&DebugInformation, super::Error> {
+        self.debugee.program_debug_info()
+    }
+}
